@@ -115,6 +115,15 @@ func runC12(o *opts) (*summary, error) {
 		w.put(bcdEnc([]byte{'1', byte(c), '2'}), "enc", fmt.Sprintf("e3:%d", c))
 	}
 
+	// non-ASCII runes that Unicode classes as decimal digits or numbers (Arabic-Indic, Devanagari, fullwidth, mathematical
+	// bold, superscript, fraction) and runes whose last UTF-8 byte is an ASCII-digit look-alike: all are "other characters"
+	for _, r := range []rune{0x0660, 0x0663, 0x0669, 0x06f5, 0x0966, 0x096f, 0xff10, 0xff11, 0xff19, 0x1d7ce, 0x1d7d7, 0x00b2, 0x00bd, 0x2460, 0x0130, 0x0131, 0x0139, 0x3007, 0x4e00} {
+		u := []byte(string(r))
+		w.put(bcdEnc(u), "enc-unicode", fmt.Sprintf("eu:%x", r))
+		w.put(bcdEnc(append(append([]byte("12"), u...), '3')), "enc-unicode", fmt.Sprintf("eu3:%x", r))
+		w.put(bcdEnc(append(append([]byte{}, u...), u...)), "enc-unicode", fmt.Sprintf("eu2:%x", r))
+	}
+
 	// all byte strings of length <= 2
 	w.put(bcdDec([]byte{}), "dec", "d")
 	for a := 0; a < 256; a++ {
